@@ -292,6 +292,24 @@ def run(ctx):
     if nassert < 1:
         r3.note("no assertion left in the request path")
     r3.ok("%d assertion(s) in the request path examined" % nassert, "enumeration")
+    # ... and beyond the control module itself: the attribute NAME is client data too.  It is parsed into a path and walked
+    # through the attribute tree; the tree's accessors assert the node/component tag.  Every accessor call reachable from
+    # ctl_process must sit under the matching tag test (the discriminant analysis of C10.R8, rooted at the control interface).
+    from .. import discr as D
+    dz = D.Discr(P, eng)
+    pre_fns = [g for g in P.fns_in("libxcm/core/attr_node.c") + P.fns_in("libxcm/core/attr_path.c") if dz.pre(g)]
+    if len(pre_fns) < 8:
+        raise Broken("C14.R3: only %d tag-asserting accessors recognised" % len(pre_fns))
+    pre_names = {g.name for g in pre_fns}
+    from .C10 import NAME_DRIVEN
+    scope = [f for f in P.fns_in("libxcm/core/attr_tree.c") if f in reach_cp and f.name in NAME_DRIVEN]
+    if len(scope) < 5:
+        raise Broken("C14.R3: only %d tree-walking functions reachable from ctl_process" % len(scope))
+    for f in scope:
+        r3.instance("%s (reached by a client-supplied name)" % f.qname)
+    nacc = dz.check_scope(scope, r3)
+    if nacc < 8:
+        raise Broken("C14.R3: only %d accessor calls checked" % nacc)
 
     # ------------------------------------------------------------------ R4
     r4 = ctx.rule("C14.R4", "request -> reply type table agrees between server and client, and every handler stores the reply type")
